@@ -247,7 +247,11 @@ func RunCrash(s *Script, ks []int, moveOn int, dropLost bool, twin *Twin) (*Cras
 						i, op.Kind, r.Restarts, out.Err)
 				}
 				if op.Kind == OpNewAddr && out.Val != op.Addr {
-					return fail("address-differs-after-restart", "operation %d: NewAddress of wallet %d returned %s after %d restart(s), the run that never stopped got %s (skipped or duplicated index)",
+					var ctxs []string
+					for _, c := range res.Crashes {
+						ctxs = append(ctxs, c.Context)
+					}
+					return fail("address-differs-after-restart:"+strings.Join(ctxs, ","), "operation %d: NewAddress of wallet %d returned %s after %d restart(s), the run that never stopped got %s (skipped or duplicated index)",
 						i, op.W, out.Val, r.Restarts, op.Addr)
 				}
 				if (op.Kind == OpCreate || op.Kind == OpImport) && out.Val != op.WalletID {
